@@ -97,20 +97,38 @@ func TestDriveC04(t *testing.T) {
 				if i%3 == 1 {
 					spec.CfgMin, spec.MeasMin = nil, ip(mn)
 				}
+				// every other history: a healthy fan with an RPM sensor (the stall logic is part of the closed loop
+				// and must stay quiet), windows incl. 1
+				healthy := i%2 == 0
+				if healthy {
+					spec.HasRpm = true
+					spec.N = []int{1, 2, 10}[i/2%3]
+				}
 				rec.NextTrace()
-				ctl := NewCtl(rec, spec, start, 2, 0)
+				avg0 := 0.0
+				if healthy {
+					avg0 = 1500
+				}
+				ctl := NewCtl(rec, spec, start, 2, avg0)
 				defer ctl.Close()
 				ctl.EmitInit(Ev{"profile": "C04", "c": c, "prior": len(prior)})
 				step := alg.Dt
 				if step == 0 {
 					step = 200
 				}
-				for _, cv := range prior {
+				poll := func(j int) {
+					if healthy && j%5 == 0 { // RPM polls are slower than control cycles
+						ctl.Rpm(600+10*ctl.reg("pwm"), true)
+					}
+				}
+				for j, cv := range prior {
 					time.Sleep(time.Duration(step) * time.Millisecond)
+					poll(j)
 					ctl.Cycle(cv, step)
 				}
 				for j := 0; j < k; j++ {
 					time.Sleep(time.Duration(step) * time.Millisecond)
+					poll(j)
 					ctl.Cycle(c, step)
 				}
 			})
